@@ -18,6 +18,7 @@ import Gzx.Proofs.BitSource
 import Gzx.Proofs.OneDPost
 import Gzx.Proofs.TotalQR
 import Gzx.Proofs.TotalDM
+import Gzx.Proofs.TotalQRFit
 namespace Gzx.Properties.C06
 open Gzx Gzx.BitSource Gzx.OneDPost
 
@@ -300,6 +301,50 @@ example : parse [] [0x60] 1 .none = .error .format := by decide
 example : parse [] [0x78, 0x38, 0x40] 1 .none = .error .format := by decide
 
 end QRParse
+
+/-! ## QR Decoder.Decode on arbitrary matrices (model `Gzx.QRDec.decode`, tied to the code by the
+     `c01 decode` / `c01 cw` and `c06 qrdecode` correspondence lines) -/
+
+section QRDecode
+open Gzx.QRDec Gzx.ECI Gzx.Proofs.TotalQR Gzx.Proofs.TotalQRDec Gzx.Proofs.TotalQRFit
+
+/-- C06 for `qrcode/decoder.Decoder.Decode`: NewBitMatrixParser, ReadVersion, ReadFormatInformation,
+    ReadCodewords, DataBlock_GetDataBlocks, correctErrors, DecodedBitStreamParser_Decode and the mirrored
+    second attempt, on EVERY square matrix (any dimension ≥ 0, any cells), every charset hint:
+    a result, FormatException or ChecksumException — never a panic, never an exhausted loop budget.
+    Hypotheses (all decidable facts about DATA, discharged for the tables regenerated from /repo by
+    `Obligations.C06.tables_ok` on every run):
+      * `wfVersions T.versions` — VERSIONS has 40 entries numbered 1..40 with consistent block lists;
+      * `T.versions.all cwFitsB` — every version has room for ≤ totalCodewords codewords (+ < 8 bits)
+        outside its function patterns;
+    and of the Reed-Solomon block decoder only that it never panics (`rs_decode_total` of C04 for the
+    verified RS model on in-range words).  The format / version BCH look-up tables, the mask table and
+    the ECI registry may be ARBITRARY. -/
+theorem qr_decode_total (T : Tables) (hT : wfVersions T.versions = true) (hfit : T.versions.all cwFitsB = true)
+    (rs : List Nat → Nat → Res (List Nat)) (hrs : ∀ cw n w, rs cw n ≠ .error (.panic w))
+    (hint : Hint) (m : Matrix) :
+    (∃ d, decode T rs hint m = .ok d) ∨ decode T rs hint m = .error .format ∨
+      decode T rs hint m = .error .checksum :=
+  decode_spec T hT (cwFits_of_check T hfit) rs hrs hint m
+
+theorem qr_decode_no_panic (T : Tables) (hT : wfVersions T.versions = true) (hfit : T.versions.all cwFitsB = true)
+    (rs : List Nat → Nat → Res (List Nat)) (hrs : ∀ cw n w, rs cw n ≠ .error (.panic w))
+    (hint : Hint) (m : Matrix) :
+    (∀ w, decode T rs hint m ≠ .error (.panic w)) ∧ decode T rs hint m ≠ .error .fuel := by
+  rcases qr_decode_total T hT hfit rs hrs hint m with ⟨d, h⟩ | h | h <;> rw [h] <;>
+    exact ⟨fun w => by simp, by simp⟩
+
+/-- the table hypotheses are what keeps the decoder inside its slices: with a VERSIONS table of 39 entries
+    a 177x177 matrix that announces version 40 indexes past the table (model and code alike) -/
+example : getVersionForNumber [] 40 = .error (.panic "VERSIONS[versionNumber-1]") := by decide
+/-- every matrix whose dimension is not 17+4k, k ≥ 1, is a FormatException whatever the tables are
+    (0x0, 1x1, 20x20, 22x22 …) -/
+example (T : Tables) (rs : List Nat → Nat → Res (List Nat)) (hint : Hint) (bit : Nat → Nat → Bool) :
+    decode T rs hint ⟨22, bit⟩ = .error .format := by simp [decode, newParser, wrapF]
+example (T : Tables) (rs : List Nat → Nat → Res (List Nat)) (hint : Hint) (bit : Nat → Nat → Bool) :
+    decode T rs hint ⟨0, bit⟩ = .error .format := by simp [decode, newParser, wrapF]
+
+end QRDecode
 
 /-! ## Data Matrix DecodedBitStreamParser (model `Gzx.DMHighLevel.decodeText`, tied to the code by the
      `c02 dm-dec` and `c06 dmparse` correspondence lines) -/
